@@ -16,6 +16,7 @@ import random
 import re
 
 import vlib
+import c18file
 
 LEVEL = "proof"
 
@@ -680,6 +681,31 @@ def run(ctx):
         for (idx, who, h), a, bb in zip(cross, ci, cm):
             if a != bb:
                 cross_diff.append((idx, who, h, a, bb))
+
+    # ------------------------------------------------------------------ file-based save/load histories (round 3, implementation oracle)
+    nf = 4000 if thorough else 500
+    fdir = ctx.scratch("c18files")
+    fhists = [c18file.gen_file_history(rng) for _ in range(nf)]
+    os.environ["VERIF_C18_DIR"] = fdir
+    rcf, outf, errf = vlib.sh2([exe], stdin="".join("F " + ";".join(o) + "\n" for o in fhists), timeout=1500,
+                               env={"ASAN_OPTIONS": "detect_leaks=0:abort_on_error=0", "UBSAN_OPTIONS": "print_stacktrace=1", "VERIF_C18_DIR": fdir})
+    fl = outf.split("\n")
+    file_fail = None
+    if rcf != 0:
+        ctx.violation("harness-abort:file-histories", "the real code ended abnormally on the file save/load stream rc=%d" % rcf,
+                      {"case": "F " + ";".join(fhists[min(len(fl), nf) - 1]), "stderr": errf[-4000:]}, found_input=True)
+    nsaves = 0
+    for o, line in zip(fhists, fl):
+        nsaves += sum(1 for x in o if x.startswith("sf") or x == "sv")
+        j = c18file.judge(o, line)
+        if j and file_fail is None:
+            file_fail = (o, line, j)
+    if file_fail:
+        o, line, (i, clause, detail) = file_fail
+        ctx.violation("file-save-load:" + clause, "a config saved to a file does not load back as the tree it held: " + detail,
+                      {"history": o[:i + 1], "output": line[:3000], "cmd": "VERIF_C18_DIR=<empty dir> %s  with the line 'F %s' on stdin" % (exe, ";".join(o[:i + 1]))},
+                      found_input=True)
+    ctx.coverage["file_histories"] = {"histories": nf, "saves": nsaves}
 
     # ------------------------------------------------------------------ histories
     nh = 6000 if thorough else 600
